@@ -179,6 +179,37 @@ class Reparented(Fam):
                         yield dict(op='sweep', parent=p2, parent_before=p1, thr=list(thr), report=[bool((c >> i) & 1) for i in range(n)], gt=[t], ds=[0, 1, 2, 3], via=VIAS[c % 3])
 
 
+class DeepChains(Fam):
+    """very deep lineages (sub-sub-...-species far below the only taxon that carries a threshold / is reportable)"""
+    name = 'deep-lineages'
+    exhaustive = False
+    procs = 4
+
+    def inputs(self, ctx):
+        depths = [63, 64, 65, 66, 100, 300] + ([900] if ctx.tier == 'thorough' else [])
+        self.rule = (f'single lineages of {depths} taxa with the genome on the deepest taxon: threshold / reportable flag only on the root, only '
+                     f'on the 2nd taxon, every 40th taxon, or nowhere; distance ranks 0..3; three entry points')
+        c = 0
+        for n in depths:
+            parent = list(range(0, n))
+            for where in ('root', 'second', 'every40', 'none', 'bottom-and-root'):
+                thr = [-1] * n
+                rep = [False] * n
+                if where == 'root':
+                    thr[0], rep[0] = 2, True
+                elif where == 'second':
+                    thr[1], rep[0] = 1, True
+                elif where == 'every40':
+                    for i in range(0, n, 40):
+                        thr[i] = 3 - (i // 40) % 3
+                        rep[i] = (i // 40) % 2 == 0
+                elif where == 'bottom-and-root':
+                    thr[n - 1], thr[0], rep[0] = 0, 3, True
+                for via in VIAS:
+                    c += 1
+                    yield dict(op='sweep', parent=parent, thr=thr, report=rep, gt=[n], ds=[0, 1, 2, 3], via=via, link=('children' if c % 2 else 'parent'))
+
+
 def awkward_values():
     """thresholds and distances that are NOT exactly representable in single precision, next to their float32 roundings and float64 neighbours"""
     import numpy as np
@@ -218,7 +249,7 @@ class AwkwardValues(Fam):
             yield dict(op='one', parent=p, thr=thr, report=[rng.random() < 0.7 for _ in range(n)], gt=gt, d=d, via=VIAS[i % 3], how=how, values=vals)
 
 
-FAMILIES = [Sweeps, MultiGenome, RandomDeep, Reparented, AwkwardValues]
+FAMILIES = [Sweeps, MultiGenome, RandomDeep, Reparented, AwkwardValues, DeepChains]
 
 
 def run(ctx):
@@ -239,6 +270,8 @@ def run(ctx):
 
 
 def replay(ctx, scen):
+    if scen['family'] not in {F.name for F in FAMILIES}:
+        return core.RERUN            # reported outside a judged family: replay by re-running the check
     fam = {F.name: F for F in FAMILIES}[scen['family']]()
     recs, bad = core.run_family(ctx, fam, inputs=[scen['inputs']])
     return not bad
